@@ -170,7 +170,11 @@ func (o *c16Oracle) Finish(out *RunOutcome, res *Result) {
 				break
 			}
 			y, _ := atoi(rec[cy])
-			if strings.TrimSpace(rec[cc]) != strings.TrimSpace(w.Rot[i+1].Crop) || y != har[i].day.Year() || y != w.Rot[i+1].Harvest.Year() {
+			// with fixed dates the entry is harvested on the file's date, so the two years coincide; automatic harvest may
+			// fall into another calendar year than the file's planned date (a winter crop ripening in December at southern
+			// latitudes): the record then carries the year in which the entry was actually harvested
+			fileYearOK := y == w.Rot[i+1].Harvest.Year() || c.AutoHarvest
+			if strings.TrimSpace(rec[cc]) != strings.TrimSpace(w.Rot[i+1].Crop) || y != har[i].day.Year() || !fileYearOK {
 				o.violate("crop-record", "crop-record-differs-from-rotation-entry", int(har[i].day), fmt.Sprintf("crop record %d is (%s, %d); rotation entry is (%s, harvest year %d), harvested %s", i+1, rec[cc], y, w.Rot[i+1].Crop, w.Rot[i+1].Harvest.Year(), har[i].day.ISO()), nil)
 				break
 			}
